@@ -199,15 +199,10 @@ def lastIdx {κ : Type} [DecidableEq κ] (k : κ) : List κ → Nat → Option N
     | some j => some j
     | none => if x = k then some i else none
 
-def idsOf (keys : List (List Nat)) : List (List Nat) → Except String (List Nat)
-  | [] => .ok []
-  | f :: fs =>
-    match lastIdx (keyF f) keys 0 with
-    | none => .error "err:Key"
-    | some i =>
-      match idsOf keys fs with
-      | .ok l => .ok (i :: l)
-      | .error e => .error e
+/-- ids of the stored faces carrying the vertex sets of `fs`, in order; a face that is not stored (face completion
+switched off) has no incidence to record and is skipped (`face_id.get(key) is None: continue`) -/
+def idsOf (keys : List (List Nat)) (fs : List (List Nat)) : List Nat :=
+  fs.filterMap (fun f => lastIdx (keyF f) keys 0)
 
 def cellFaceIds (keys : List (List Nat)) : List (List Nat) → Except String (List (List Nat))
   | [] => .ok []
@@ -215,12 +210,9 @@ def cellFaceIds (keys : List (List Nat)) : List (List Nat) → Except String (Li
     match cellFacesG c with
     | none => .error "err:Other(UnboundLocalError)"
     | some fs =>
-      match idsOf keys fs with
+      match cellFaceIds keys cs with
+      | .ok l => .ok (idsOf keys fs :: l)
       | .error e => .error e
-      | .ok ids =>
-        match cellFaceIds keys cs with
-        | .ok l => .ok (ids :: l)
-        | .error e => .error e
 
 def genCellFaces (r : Raw) : Except String Raw :=
   if r.cfAdj.length = 0 ∨ r.cfElem.length = 0 then
